@@ -5,6 +5,7 @@ import (
 	"fmt"
 	"runtime"
 	"strings"
+	"sync/atomic"
 	"time"
 
 	"github.com/gregoryv/mq"
@@ -554,6 +555,8 @@ func c05Cumulative(total int64) *core.Finding {
 	body := append([]byte{0, 3, 'b', 'i', 'g', 2, 0x7e, 0x00}, gen.Content('L', size)...)
 	malformed := reframe(0x30, body)
 	cut := valid[:len(valid)/2]
+	atomic.AddInt32(&watchSuspend, 1) // these calls are watched right here
+	defer atomic.AddInt32(&watchSuspend, -1)
 	call := func(stream []byte) (p mq.Packet, err error, res callResult, returned bool) {
 		done := make(chan struct{})
 		go func() {
